@@ -44,10 +44,10 @@ class SimulationAlgorithmGraphBase
     std::uniform_real_distribution<double> uiud;     // floating point uniform distribution in [0,1[
 
 
-    int Poisson(double lambda)
+    long long Poisson(double lambda)
         {
         if(!(lambda > 0)) return 0; // std::poisson_distribution requires a strictly positive mean
-        return std::poisson_distribution<int>(lambda)(rng);
+        return std::poisson_distribution<long long>(lambda)(rng); // (the int variant never returns for a mean above 2^31)
         }
 
     void SetNeighbors(
